@@ -622,7 +622,10 @@ static inline int myth_mutex_unlock_body(myth_mutex_t * mutex) {
       }
     }
   }
-  return failed;
+  /* failed only counts internal retries; the documented result
+     (and that of pthread_mutex_unlock) is zero on success */
+  (void)failed;
+  return 0;
 }
 
 static inline int
